@@ -824,28 +824,32 @@ impl UnorderedPartialEq for Object {
 			return false;
 		}
 
-		if !self.iter().all(|Entry { key, value: a }| {
+		if !self.indexes.contains_duplicate_keys() {
+			// Keys are unique and both objects have the same length: it is
+			// enough for each entry to have a match in `other`.
+			return self.iter().all(|Entry { key, value: a }| {
+				other
+					.get_entries(key)
+					.any(|Entry { value: b, .. }| a.unordered_eq(b))
+			});
+		}
+
+		// Entries sharing a key must be matched one-to-one. Since
+		// `unordered_eq` is an equivalence relation, any available match is
+		// as good as another.
+		let mut matched = vec![false; other.entries.len()];
+		self.iter().all(|Entry { key, value: a }| {
 			other
-				.get_entries(key)
-				.any(|Entry { value: b, .. }| a.unordered_eq(b))
-		}) {
-			return false;
-		}
-
-		if self.indexes.contains_duplicate_keys()
-			&& !other.iter().all(
-				|Entry {
-				     key: other_key,
-				     value: b,
-				 }| {
-					self.get_entries(other_key)
-						.any(|Entry { value: a, .. }| a.unordered_eq(b))
-				},
-			) {
-			return false;
-		}
-
-		true
+				.get_entries_with_index(key)
+				.any(|(i, Entry { value: b, .. })| {
+					if !matched[i] && a.unordered_eq(b) {
+						matched[i] = true;
+						true
+					} else {
+						false
+					}
+				})
+		})
 	}
 }
 
